@@ -201,6 +201,15 @@ def findTsig (msg : Bytes) : Option Server.Delim :=
   | none => none
   | some p => walk msg (Server.hdr msg 6 + Server.hdr msg 8 + Server.hdr msg 10) p
 
+/-- the request with its (last) TSIG RR taken out again and ARCOUNT decremented: what a client
+    without a key would have sent ("answered normally" compares with the response to this) -/
+def stripTsigRr (req : Bytes) : Option Bytes :=
+  match findTsig req with
+  | some d =>
+    let m := (req.extract 0 d.pos).toList ++ (req.extract d.next req.size).toList
+    some (bump m 10 65535).toArray
+  | none => none
+
 structure RrKey where
   owner : Octets
   ty : Nat
